@@ -58,6 +58,10 @@ pub struct Case {
     /// (U2F knows presence only; what the token can verify is no input of a U2F message)
     #[serde(default)]
     pub uv_cap: u8,
+    /// the store files every item under the account it was saved for (drivers::KeepsUser): a U2F
+    /// registration then has a user handle - the key handle - like any other item of that vault
+    #[serde(default)]
+    pub keeps_user: bool,
 }
 fn unhex32(s: &str) -> [u8; 32] {
     let mut a = [0u8; 32];
@@ -285,7 +289,10 @@ pub fn eval(c: &Case) -> (Vec<Finding>, String) {
             }
         }};
     }
-    if c.reordered_keys {
+    if c.keeps_user {
+        let shared = Shared::new(RefStore::new());
+        body!(KeepsUser { inner: shared.clone() }, shared.recs());
+    } else if c.reordered_keys {
         let shared = Shared::new(RefStore::new());
         body!(ReorderKeys { inner: shared.clone() }, shared.recs());
     } else if c.option_store {
@@ -565,11 +572,11 @@ pub fn cases(tier: Tier) -> Vec<Case> {
     let counters = [0u32, 1, 0x8000_0000, 0xFFFF_FFFF];
     for hl in 0..=255usize {
         let k = hl % 4;
-        v.push(Case { challenge: k as u8, application: ((k + 1) % 4) as u8, handle_len: hl, counter: counters[k], presence: hl % 2 == 0, memory_store: hl % 3 == 0, p1: [0u8, 7, 8][hl % 3], flags: [0u8, 4][(hl / 3) % 2], option_store: hl % 5 == 1, ctap2_assertions: [0u8, 0, 3][hl % 3], reordered_keys: hl % 7 == 2, challenge_bytes: None, application_bytes: None, uv_cap: 0 });
+        v.push(Case { challenge: k as u8, application: ((k + 1) % 4) as u8, handle_len: hl, counter: counters[k], presence: hl % 2 == 0, memory_store: hl % 3 == 0, p1: [0u8, 7, 8][hl % 3], flags: [0u8, 4][(hl / 3) % 2], option_store: hl % 5 == 1, ctap2_assertions: [0u8, 0, 3][hl % 3], reordered_keys: hl % 7 == 2, challenge_bytes: None, application_bytes: None, uv_cap: 0, keeps_user: false });
         if tier == Tier::Thorough {
             for memory_store in [false, true] {
                 for presence in [false, true] {
-                    v.push(Case { challenge: ((k + 2) % 4) as u8, application: ((k + 2) % 4) as u8, handle_len: hl, counter: counters[(k + 1) % 4], presence, memory_store, p1: [0u8, 7, 8][(hl / 2) % 3], flags: 0, option_store: false, ctap2_assertions: 0, reordered_keys: false, challenge_bytes: None, application_bytes: None, uv_cap: 0 });
+                    v.push(Case { challenge: ((k + 2) % 4) as u8, application: ((k + 2) % 4) as u8, handle_len: hl, counter: counters[(k + 1) % 4], presence, memory_store, p1: [0u8, 7, 8][(hl / 2) % 3], flags: 0, option_store: false, ctap2_assertions: 0, reordered_keys: false, challenge_bytes: None, application_bytes: None, uv_cap: 0, keeps_user: false });
                 }
             }
         }
@@ -581,14 +588,14 @@ pub fn cases(tier: Tier) -> Vec<Case> {
                     for memory_store in [false, true] {
                         for p1 in [0u8, 7, 8] {
                             for flags in [0u8, 4] {
-                                v.push(Case { challenge, application, handle_len: 32, counter, presence, memory_store, p1, flags, option_store: false, ctap2_assertions: 0, reordered_keys: false, challenge_bytes: None, application_bytes: None, uv_cap: 0 });
+                                v.push(Case { challenge, application, handle_len: 32, counter, presence, memory_store, p1, flags, option_store: false, ctap2_assertions: 0, reordered_keys: false, challenge_bytes: None, application_bytes: None, uv_cap: 0, keeps_user: false });
                                 if !memory_store {
-                                    v.push(Case { challenge, application, handle_len: 32, counter, presence, memory_store, p1, flags, option_store: true, ctap2_assertions: 0, reordered_keys: false, challenge_bytes: None, application_bytes: None, uv_cap: 0 });
+                                    v.push(Case { challenge, application, handle_len: 32, counter, presence, memory_store, p1, flags, option_store: true, ctap2_assertions: 0, reordered_keys: false, challenge_bytes: None, application_bytes: None, uv_cap: 0, keeps_user: false });
                                 }
                                 if flags == 0 && p1 == 0 {
-                                    v.push(Case { challenge, application, handle_len: 32, counter, presence, memory_store, p1, flags, option_store: false, ctap2_assertions: 3, reordered_keys: false, challenge_bytes: None, application_bytes: None, uv_cap: 0 });
+                                    v.push(Case { challenge, application, handle_len: 32, counter, presence, memory_store, p1, flags, option_store: false, ctap2_assertions: 3, reordered_keys: false, challenge_bytes: None, application_bytes: None, uv_cap: 0, keeps_user: false });
                                     if !memory_store {
-                                        v.push(Case { challenge, application, handle_len: 32, counter, presence, memory_store, p1, flags, option_store: false, ctap2_assertions: 3, reordered_keys: true, challenge_bytes: None, application_bytes: None, uv_cap: 0 });
+                                        v.push(Case { challenge, application, handle_len: 32, counter, presence, memory_store, p1, flags, option_store: false, ctap2_assertions: 3, reordered_keys: true, challenge_bytes: None, application_bytes: None, uv_cap: 0, keeps_user: false });
                                     }
                                 }
                             }
@@ -601,6 +608,9 @@ pub fn cases(tier: Tier) -> Vec<Case> {
     // tokens without (configured) user verification
     let more: Vec<Case> = v.iter().filter(|c| c.handle_len == 32 && c.challenge < 2 && c.application < 2 && c.counter <= 1 && c.ctap2_assertions == 0 && !c.reordered_keys).flat_map(|c| [Case { uv_cap: 1, ..c.clone() }, Case { uv_cap: 2, ..c.clone() }]).collect();
     v.extend(more);
+    // an account vault as store: every key-handle length, and the control-byte / flag / CTAP2 products at 32 bytes
+    let vault: Vec<Case> = v.iter().filter(|c| !c.memory_store && !c.option_store && !c.reordered_keys && c.uv_cap == 0 && (c.handle_len != 32 || (c.challenge < 2 && c.application < 2 && c.counter <= 1))).map(|c| Case { keeps_user: true, ..c.clone() }).collect();
+    v.extend(vault);
     // 32-byte constants of the library sources as application and challenge: every ordered pair of
     // them, and each next to a pattern
     let consts = constants32();
@@ -608,12 +618,12 @@ pub fn cases(tier: Tier) -> Vec<Case> {
     for (i, a) in consts.iter().enumerate() {
         for (j, b) in consts.iter().enumerate() {
             for memory_store in [false, true] {
-                v.push(Case { challenge: (j % 4) as u8, application: (i % 4) as u8, handle_len: 32, counter: 1, presence: true, memory_store, p1: 0, flags: 0, option_store: false, ctap2_assertions: 0, reordered_keys: false, challenge_bytes: Some(hx(b)), application_bytes: Some(hx(a)), uv_cap: 0 });
+                v.push(Case { challenge: (j % 4) as u8, application: (i % 4) as u8, handle_len: 32, counter: 1, presence: true, memory_store, p1: 0, flags: 0, option_store: false, ctap2_assertions: 0, reordered_keys: false, challenge_bytes: Some(hx(b)), application_bytes: Some(hx(a)), uv_cap: 0, keeps_user: false });
             }
         }
         for other in 0..4u8 {
-            v.push(Case { challenge: other, application: 0, handle_len: 32, counter: 1, presence: true, memory_store: false, p1: 0, flags: 0, option_store: false, ctap2_assertions: 0, reordered_keys: false, challenge_bytes: None, application_bytes: Some(hx(a)), uv_cap: 0 });
-            v.push(Case { challenge: 0, application: other, handle_len: 32, counter: 1, presence: true, memory_store: false, p1: 0, flags: 0, option_store: false, ctap2_assertions: 0, reordered_keys: false, challenge_bytes: Some(hx(a)), application_bytes: None, uv_cap: 0 });
+            v.push(Case { challenge: other, application: 0, handle_len: 32, counter: 1, presence: true, memory_store: false, p1: 0, flags: 0, option_store: false, ctap2_assertions: 0, reordered_keys: false, challenge_bytes: None, application_bytes: Some(hx(a)), uv_cap: 0, keeps_user: false });
+            v.push(Case { challenge: 0, application: other, handle_len: 32, counter: 1, presence: true, memory_store: false, p1: 0, flags: 0, option_store: false, ctap2_assertions: 0, reordered_keys: false, challenge_bytes: Some(hx(a)), application_bytes: None, uv_cap: 0, keeps_user: false });
         }
     }
     v.sort_by_key(|c| serde_json::to_string(c).unwrap());
@@ -660,7 +670,7 @@ pub fn run(ctx: &Ctx) -> Result<Run, String> {
     let n = cs.len() as u64;
     let mut run = Run::from_stats(
         "model_checking",
-        "a store with its own item type whose conversion to a Passkey panics once during an authentication (unwind caught): the next authentication on the same authenticator succeeds; every 32-byte constant of the library sources (array-repeat expressions, string literals) as application and as challenge, all ordered pairs; signature shapes: for 3 fixed stored keys x 2 applications the smallest counter whose RFC 6979 signature falls into each DER shape class (r padded / not / shorter than 32 bytes x s full / shorter; quick 5 classes, thorough all 6) is searched with the harness's own signer and authenticated over three stores - success, byte-equality with the predicted signature, verification and raw encoding demanded; single register+authenticate+unknown-handle runs for every key-handle length 0..255 and the product challenge/application patterns(4x4, incl. equal) x counter {0,1,2^31,2^32-1} x presence x control byte {0x03, 0x07, 0x08} x further flag bits {none, UV} x user-verification capability of the token {configured, unconfigured, none} x {0, 3} CTAP2 assertions with the credential before the U2F authentication x {RefStore, Arc<Mutex<MemoryStore>>, Arc<Mutex<Option<Passkey>>>, a store that returns the COSE key members in reverse order} (unknown handles: the registered one plus a byte, minus a byte, with a changed byte, and the empty handle); response structs with certificate/handle/signature lengths the authenticator itself never produces encoded directly; every well-formed extended-length request frame (register, authenticate with P1 in {3,7,8} and every handle length, version; with and without trailing Le) parsed back; BFS over sequences of register(h in 2, app in 2) / authenticate(h in 2 + unknown, app in 2) on ONE authenticator instance over the contract store, Arc<Mutex<MemoryStore>> and the single-slot Arc<Mutex<Option<Passkey>>> (a handle whose credential was replaced is unknown again; one step deeper); the complete history tree to depth 4, histories merged on equal store content beyond that. Signatures are verified with p256 over the byte strings of the U2F raw-message specification; raw encodings are parsed by the harness",
+        "a store with its own item type whose conversion to a Passkey panics once during an authentication (unwind caught): the next authentication on the same authenticator succeeds; every 32-byte constant of the library sources (array-repeat expressions, string literals) as application and as challenge, all ordered pairs; signature shapes: for 3 fixed stored keys x 2 applications the smallest counter whose RFC 6979 signature falls into each DER shape class (r padded / not / shorter than 32 bytes x s full / shorter; quick 5 classes, thorough all 6) is searched with the harness's own signer and authenticated over three stores - success, byte-equality with the predicted signature, verification and raw encoding demanded; single register+authenticate+unknown-handle runs for every key-handle length 0..255 and the product challenge/application patterns(4x4, incl. equal) x counter {0,1,2^31,2^32-1} x presence x control byte {0x03, 0x07, 0x08} x further flag bits {none, UV} x user-verification capability of the token {configured, unconfigured, none} x {0, 3} CTAP2 assertions with the credential before the U2F authentication x {RefStore, Arc<Mutex<MemoryStore>>, Arc<Mutex<Option<Passkey>>>, a store that returns the COSE key members in reverse order, an account vault that keeps the user entity of every save as the item's user handle} (unknown handles: the registered one plus a byte, minus a byte, with a changed byte, and the empty handle); response structs with certificate/handle/signature lengths the authenticator itself never produces encoded directly; every well-formed extended-length request frame (register, authenticate with P1 in {3,7,8} and every handle length, version; with and without trailing Le) parsed back; BFS over sequences of register(h in 2, app in 2) / authenticate(h in 2 + unknown, app in 2) on ONE authenticator instance over the contract store, Arc<Mutex<MemoryStore>> and the single-slot Arc<Mutex<Option<Passkey>>> (a handle whose credential was replaced is unknown again; one step deeper); the complete history tree to depth 4, histories merged on equal store content beyond that. Signatures are verified with p256 over the byte strings of the U2F raw-message specification; raw encodings are parsed by the harness",
         true,
         stats,
     );
